@@ -202,10 +202,23 @@ def rule_groups(ctx):
         return any(isinstance(c, ast.Call) and norm(c.func) == "etree.SubElement" and len(c.args) > 1 and isinstance(c.args[1], ast.Constant)
                    and c.args[1].value == "part-group" and any(k.arg == "type" and isinstance(k.value, ast.Constant) and k.value.value == typ for k in c.keywords)
                    for s in block for c in ast.walk(s))
-    pushes = pops = 0
+    # the stack: a local list of save_musicxml on which the nested helpers call .append and .pop (found by role, not by name)
+    inits = {norm(n.targets[0]) for n in own_nodes(sm.node) if isinstance(n, ast.Assign) and isinstance(n.value, ast.List) and not n.value.elts
+             and len(n.targets) == 1 and isinstance(n.targets[0], ast.Name)}
+    used = {}
     for f in fs:
         for n in own_nodes(f.node):
-            if isinstance(n, ast.Expr) and isinstance(n.value, ast.Call) and norm(n.value.func) in ("group_stack.append", "group_stack.pop"):
+            if isinstance(n, ast.Expr) and isinstance(n.value, ast.Call) and isinstance(n.value.func, ast.Attribute) and n.value.func.attr in ("append", "pop") \
+                    and isinstance(n.value.func.value, ast.Name) and n.value.func.value.id in inits:
+                used.setdefault(n.value.func.value.id, set()).add(n.value.func.attr)
+    stacks = [k for k, v in used.items() if v == {"append", "pop"}]
+    ctx.require(len(stacks) == 1, "GROUPS", sm.qname, f"group stack not identified: {used}")
+    stack = stacks[0]
+    pushes = pops = 0
+    drainers = []
+    for f in fs:
+        for n in own_nodes(f.node):
+            if isinstance(n, ast.Expr) and isinstance(n.value, ast.Call) and norm(n.value.func) in (f"{stack}.append", f"{stack}.pop"):
                 block = _block_of(n, f.node)
                 if norm(n.value.func).endswith("append"):
                     pushes += 1
@@ -215,12 +228,16 @@ def rule_groups(ctx):
                     pops += 1
                     ctx.check(emits(block, "stop"), "GROUPS", f"{f.name}: pop with stop", func=f, node=n, construct="pop-without-stop",
                               msg="a group is popped from the stack without emitting <part-group type='stop'>: the group is never closed in the file")
+        if f is not sm and any(isinstance(n, ast.While) and norm(n.test) == stack and any(isinstance(c, ast.Call) and norm(c.func) == f"{stack}.pop" for c in ast.walk(n))
+                               for n in own_nodes(f.node)) and len(f.params) == 0:
+            drainers.append(f.name)
     ctx.check(pushes >= 1 and pops >= 2, "GROUPS", "push/pop sites", func=sm, construct="group-stack-sites", msg=f"{pushes} pushes / {pops} pops")
     body = sm.node.body
-    loop_idx = next((i for i, s in enumerate(body) if isinstance(s, ast.For) and "score_data" in norm(s.iter)), None)
-    close_idx = next((i for i, s in enumerate(body) if isinstance(s, ast.Expr) and isinstance(s.value, ast.Call) and norm(s.value.func) == "close_group_stack"), None)
+    first = sm.params[0]
+    loop_idx = next((i for i, st in enumerate(body) if isinstance(st, ast.For) and norm(st.iter) == first), None)
+    close_idx = next((i for i, st in enumerate(body) if isinstance(st, ast.Expr) and isinstance(st.value, ast.Call) and norm(st.value.func) in drainers), None)
     ctx.check(loop_idx is not None and close_idx is not None and close_idx > loop_idx, "GROUPS", "stack drained after the last part", func=sm,
-              construct="groups-not-closed", msg="close_group_stack() must be called after the loop over the parts: open groups would never get their stop")
+              construct="groups-not-closed", msg="the helper that pops the group stack until it is empty must be called after the loop over the parts: open groups would never get their stop")
 
 
 def _block_of(stmt, root):
